@@ -279,7 +279,7 @@ func ParseText(data []byte) *Doc {
 		if !strings.HasPrefix(uri, pfx) || k < 0 {
 			d.add("text-buffer-uri", siteText, "buffer 0 uri is not a base64 data URI: %.60q", uri)
 		} else {
-			raw, err := base64.StdEncoding.DecodeString(uri[k+len(";base64,"):])
+			raw, err := strictBase64(uri[k+len(";base64,"):])
 			if err != nil {
 				d.add("text-buffer-uri", siteText, "base64 payload does not decode: %v", err)
 			} else {
@@ -291,6 +291,28 @@ func ParseText(data []byte) *Doc {
 		}
 	}
 	return d
+}
+
+// strictBase64 decodes RFC 4648 §4 base64 the way a strict loader does: only alphabet characters,
+// length a multiple of 4, '=' only as the last one or two characters, zero trailing bits.
+func strictBase64(s string) ([]byte, error) {
+	if len(s)%4 != 0 {
+		return nil, fmt.Errorf("length %d is not a multiple of 4", len(s))
+	}
+	for i := 0; i < len(s); i++ {
+		ch := s[i]
+		ok := ch >= 'A' && ch <= 'Z' || ch >= 'a' && ch <= 'z' || ch >= '0' && ch <= '9' || ch == '+' || ch == '/'
+		if ch == '=' {
+			if i < len(s)-2 || (i == len(s)-2 && s[len(s)-1] != '=') {
+				return nil, fmt.Errorf("padding character '=' at offset %d of %d (interior padding)", i, len(s))
+			}
+			ok = true
+		}
+		if !ok {
+			return nil, fmt.Errorf("character %q at offset %d is not in the base64 alphabet", ch, i)
+		}
+	}
+	return base64.StdEncoding.Strict().DecodeString(s)
 }
 
 // ---- structural checks ----------------------------------------------------
